@@ -63,6 +63,49 @@ CLAIMS.update({
         design='4/C04'),
 })
 
+CLAIMS.update({
+    'C02': dict(
+        text='Over every Core/PromiseCore instantiation of the probe program (callback signature class x return kind '
+             'x attachment x source): R-ACCESSOR (each Result accessor in CallResolveState sees its state), '
+             'R-DISPATCH (each input state reaches exactly one of invoke / pass-through and the invoking state is a '
+             'single one), R-TRY (every functor invocation lies under a try/catch(...) that stores '
+             'current_exception()), R-HEAD (a returned Task of every head kind can be started by the step). Decides '
+             'the routing/recovery/unwrapping *shape* for all programs of the instantiated product; values and the '
+             'set of callbacks run for a concrete chain are not decided.',
+        technique='path-sensitive state-set refinement + call-graph try-coverage + partial evaluation of Here() '
+                  'overriders over clang CFGs of all template instantiations',
+        design='4/C02'),
+    'C05': dict(
+        text='R-LINEAR on the five IExecutor::Submit overriders and the five dequeue sites (exactly one of '
+             'Call/Drop/enqueue per path, Drop only behind the stop condition, node finished once with next read '
+             'first); R-ROUTE on every Core instantiation (Call steps reach the functor only through '
+             '_executor->Submit after TransferExecutorTo, inline steps never submit, Drop runs CallImpl on StopTag), on '
+             'executor-naming awaiters (executor assigned before Submit) and on the set of writers of '
+             'BaseCore::_executor; R-HEAD.2 reports the known finding F7. Thread identity at run time is not decided.',
+        technique='linear typestate per CFG path + effect rules over template instantiations + who-may-write table',
+        design='4/C05'),
+    'C07': dict(
+        text='Strand::_jobs protocol and memory-order roles, CAS kinds, job published exactly once, batch walks finish '
+             'every node once reading next first, self-scheduling iff the idle marker was replaced (with a self '
+             'reference), a batch ends by exactly one of go-idle/resubmit, no blocking call. Mutual exclusion and '
+             'FIFO over all interleavings are not decided.',
+        technique='role table over atomic sites + per-path typestate rules over the clang CFG of Strand',
+        design='4/C07'),
+    'C08': dict(
+        text='R-LOCKSET (queue and counter only under _m, jobs Called/Dropped with _m released, lock pairing on every '
+             'path incl. unique_lock moved into Stop), R-LINEAR (Submit: Drop xor enqueue; Loop/HardStop finish each '
+             'popped node once), R-DRAIN (a worker returns only after seeing the queue empty under the same lock hold; '
+             'only Stop(unique_lock&&) sets the stopped bit). Quiescence after Wait for all schedules is not decided.',
+        technique='lockset dataflow per CFG path with RAII/moved-lock modelling and helper inlining',
+        design='4/C08'),
+    'C12': dict(
+        text='R-HEAD: every Task-head kind (Schedule, LazyContract, MakeTask, coroutine Task), partially evaluated '
+             'with its construction-time fields, reaches its own work when started through Here/Next and never '
+             'reads the starter as a completed core. Equality with the eager pipeline needs execution: not decided.',
+        technique='partial evaluation of virtual overriders over clang CFGs with helper/lambda inlining',
+        design='4/C12'),
+})
+
 NOT_YET = {}
 
 
